@@ -406,6 +406,9 @@ func sameGraph(g graph.Graph, h *gx.G) bool {
 
 func exec(line string) hx.Result {
 	c := gx.ParseCase(line)
+	if c.Level == 2 {
+		return execDsaturOnly(c)
+	}
 	var viol []hx.OracleViolation
 	ref := reference(c)
 	vars := append([]gx.Variant{{Rep: 'd', Perm: gx.Identity(c.Base.N)}}, c.Vars...)
@@ -451,6 +454,12 @@ func exec(line string) hx.Result {
 	// corpus of the known finding C09:chromatic-index-byte-wrap: ChromaticIndex alone on a large tree
 	big := ""
 	for _, t := range c.Toks {
+		if t.Kind == 'G' {
+			observeConstructed(c, t, &viol)
+		}
+		if t.Kind == 'P' {
+			observePlanted(c, t, &viol)
+		}
 		if t.Kind == 'B' {
 			// the model side (Bron-Kerbosch and the edge-array loop on 33 000 pairs in extracted
 			// Coq) costs ~17 s per case: only the pure star is compared with the model, the other
